@@ -82,5 +82,70 @@ impl LocalPeerService {
         // [connection_end_releases_everything_it_held] every room the ending connection still holds is released, each exactly once
         assert(released =~= rooms0);
 //@ end
+
+// ---- the end of a connection (the statements of LocalPeerService::start that follow its event loop)
+/// tokio::sync::mpsc::UnboundedReceiver<Uid>: the channel on which the lock service (unit u6_locks) sends the rooms it grants to
+/// this connection.  `pending()` = the grants sent and not yet read.  While the channel is open the lock service may send at any
+/// time (nothing is known about pending()); once closed, sends fail (the lock service then does not count the room as granted:
+/// u6_locks `lock_request.reply.send(room).is_ok()`), so pending() only shrinks.  ASSUMED: tokio's close / try_recv semantics
+/// (try_recv on a closed channel returns every message already sent, then Err).
+pub struct GrantReceiver { x: u8 }
+pub struct TryRecvError { x: u8 }
+impl GrantReceiver {
+    pub uninterp spec fn pending(&self) -> Seq<Uid>;
+    pub uninterp spec fn closed(&self) -> bool;
+    #[verifier::external_body]
+    pub fn close(&mut self) ensures final(self).closed() { unimplemented!() }
+    #[verifier::external_body]
+    pub fn try_recv(&mut self) -> (r: std::result::Result<Uid, TryRecvError>)
+        ensures
+            final(self).closed() == old(self).closed(),
+            old(self).closed() ==> match r {
+                Ok(room) => old(self).pending().len() > 0 && room == old(self).pending()[0] && final(self).pending() == old(self).pending().skip(1),
+                Err(_) => old(self).pending().len() == 0 && final(self).pending() == old(self).pending(),
+            },
+    { unimplemented!() }
+}
+pub fn drop<T>(_x: T) {}
+// E8 cut: `for room in acquere.drain() { rooms.push(room); }` (hash_set::Drain has no Verus model).  ASSUMED: std semantics -
+// the set is emptied into `rooms`, each element once.
+#[verifier::external_body]
+pub fn cut_drain_held(acquere: &mut Box<HashSet<Uid>>, rooms: &mut Vec<Uid>)
+    ensures final(acquere)@ == Set::<Uid>::empty(), final(rooms)@.no_duplicates(), final(rooms)@.to_set() == old(acquere)@, old(rooms)@.len() == 0 ==> final(rooms)@.len() == old(acquere)@.len(),
+{ unimplemented!() }
+impl LocalPeerService {
+    /// the real `cleanup` (under contract above), seen from its caller: every room it is given is released
+    #[verifier::external_body]
+    pub async fn cleanup_stub(lock_service: &RoomLockService, rooms: Vec<Uid>) { unimplemented!() }
+}
+
+//@ extract src/synchronisation/peer_inbound_service.rs :: impl LocalPeerService / fn start as LocalPeerService::lifted_connection_end
+//@ lift-range "let mut acquere = acquired_lock.lock().await;" .. "let key = remote_verifying_key.lock().await;" :: async fn lifted_connection_end(acquired_lock: AcquiredSet, lock_service: RoomLockService, lock_receiver0: GrantReceiver)
+//@ cut "for room in acquere.drain()" => "cut_drain_held(&mut acquere, &mut rooms);"
+//@ rewrite E3 "Self::cleanup\(&lock_service, rooms\)" => "Self::cleanup_stub(&lock_service, rooms)" x1
+//@ insert body-start
+            let mut lock_receiver = lock_receiver0;   // E9: `mut lock_receiver` of the enclosing function
+            let ghost mut released: Seq<Uid> = Seq::empty();
+            let ghost mut unread: Seq<Uid> = Seq::empty();
+            let ghost mut handed_to_cleanup: Option<Seq<Uid>> = None;
+            let ghost mut held_left: Set<Uid> = Set::empty();
+//@ insert before-stmt "Self::cleanup(&lock_service, rooms).await;"
+            proof { handed_to_cleanup = Some(rooms@); held_left = acquere@; }
+//@ insert after-stmt "let mut acquere = acquired_lock.lock().await;"
+            let ghost held0 = acquere@;
+//@ insert after-stmt "lock_receiver.close();"
+            proof { unread = lock_receiver.pending(); }
+//@ loop "while let Ok(room) = lock_receiver.try_recv()"
+                invariant lock_receiver.closed(), released + lock_receiver.pending() =~= unread,
+                ensures lock_receiver.pending().len() == 0,
+                decreases lock_receiver.pending().len(),
+//@ insert after-stmt "lock_service.unlock("
+                proof { released = released.push(room); }
+//@ insert body-end
+            // [connection_end_hands_every_held_room_to_cleanup]{C20} every room still in the connection's held set is handed to cleanup (which releases each exactly once: see cleanup), and the set is left empty so that a room task still running does not release it again
+            assert(handed_to_cleanup is Some && handed_to_cleanup->Some_0.to_set() == held0 && handed_to_cleanup->Some_0.no_duplicates() && held_left == Set::<Uid>::empty());
+            // [unread_grants_released_at_connection_end]{C20} a room the lock service granted to this connection and that the connection had not read when it ended is released too, each exactly once, and no further grant can reach the ended connection (the channel is closed before it is emptied)
+            assert(lock_receiver.closed() && lock_receiver.pending().len() == 0 && released =~= unread);
+//@ end
 } // verus!
 fn main() {}
